@@ -85,6 +85,7 @@ def run(ctx):
     if hb["rc"] != 0:
         broken.append("harness TestVerifC07b failed (rc=%d): %s" % (hb["rc"], hb["log"][-1500:]))
     stages = [r for r in hb["records"] if r.get("kind") == "stage"]
+    jcases = [r for r in hb["records"] if r.get("kind") == "jcase"]
     for r in ha["records"] + hb["records"]:
         if r.get("kind") == "oracle_fail":
             failures.append(dict(key=r.get("key", "?"), what=r.get("what", ""), replay=r.get("replay")))
@@ -97,6 +98,16 @@ def run(ctx):
             broken.append("correspondence c07_mismatches: model and implementation disagree on case %s" % vf.json.dumps(cases[i].get("sample"), default=str)[:800])
     elif ha["rc"] == 0:
         broken.append("harness produced no cases")
+    jev = dict(ok=True, bad=[], evaluated=0, log="")
+    if jcases:
+        jev = vf.coq_eval_cases(ctx, "C07", ["From ZV Require Import Lib.Base Model.Query Model.JsonApi."], "jcase", "json_mismatches",
+                                [c["coq"] for c in jcases], shard=4000, tag="_json")
+        if not jev["ok"]:
+            broken.append("model evaluation (JSON handlers) failed: " + jev["log"][-1500:])
+        for i in jev["bad"][:10]:
+            broken.append("correspondence json_mismatches: handler status differs from the model on %s" % vf.json.dumps(jcases[i].get("sample"), default=str)[:600])
+    elif hb["rc"] == 0:
+        broken.append("harness B produced no JSON handler cases")
     if not stages and hb["rc"] == 0:
         broken.append("harness B produced no stage records")
     cov = dict(
@@ -104,8 +115,9 @@ def run(ctx):
         distinct_nontrivial=vf.distinct_nontrivial(cases) + vf.distinct_nontrivial(stages),
         rule=RULE,
         samples=[c.get("sample") for c in cases[200:203]] + [s.get("sample") for s in stages[:2]],
-        traces_validated_against_impl=ev["evaluated"],
-        correspondence_mismatches=len(ev["bad"]),
+        traces_validated_against_impl=ev["evaluated"] + jev["evaluated"],
+        correspondence_mismatches=len(ev["bad"]) + len(jev["bad"]),
+        json_handler_cases=len(jcases),
         oracle_failures=len(failures),
         input_distribution=vf.histogram(cases, "class"),
         stage_distribution=vf.histogram(stages, "class"),
